@@ -213,6 +213,9 @@ def rule_ownbuf(ctx, R):
                 gens.append(f['q'])
     R.check(set(gens) == {'randomx::initCacheCompile'}, 'cache-owned compiler is written only during cache initialisation', 'src/dataset.cpp', expected=['randomx::initCacheCompile'], found=sorted(set(gens)))
 
+EXPLANATION += ' RACE-GLOBALS-AST (K1, K2, K3).'
+CLAIM += (' The same holds in the configurations the host build does not compile (portable fallback, AArch64, RISC-V): no function writes a configuration-specific file-scope or function-local static that is neither constant nor thread_local (RACE-GLOBALS-AST on the resolved ASTs).')
+
 
 def run(ctx, R):
     import astq
